@@ -497,3 +497,46 @@ func c12IndexAligned(c *Ctx) {
 	}
 	c.Extra["vhost_index_uses_in_manager"] = used
 }
+
+// recordedHostsReadBack (C12.R1 / C19.R7): the hosts written into the stored configuration are read back from the live
+// host set. The runtime de-duplicates, replaces and orders hosts in its own way (NewHostSet: last entry for an address
+// wins); recording the *request* (the host list an update call was given) instead of the *result* makes the dump differ
+// from the running proxy - a restart from the dump then serves other weights/metadata. Clause: in pkg/upstream/cluster
+// every argument of type []v2.Host passed to a pkg/configmanager function is built from the snapshot (host.Config() of
+// the live hosts) and does not derive from a parameter of the calling function.
+func recordedHostsReadBack(c *Ctx, rule string) {
+	pkg := "pkg/upstream/cluster"
+	n := 0
+	ord := ordCounter{}
+	for _, fn := range c.PkgFuncs(pkg) {
+		forEachInstr(fn, false, func(f *ssa.Function, in ssa.Instruction) {
+			ci, ok := in.(ssa.CallInstruction)
+			if !ok {
+				return
+			}
+			callee := ci.Common().StaticCallee()
+			if callee == nil || callee.Pkg == nil || !strings.HasSuffix(callee.Pkg.Pkg.Path(), "pkg/configmanager") {
+				return
+			}
+			for _, a := range ci.Common().Args {
+				if !strings.HasSuffix(a.Type().String(), "v2.Host") || !strings.HasPrefix(a.Type().String(), "[]") {
+					continue
+				}
+				n++
+				key := ord.next(f, "recorded-hosts")
+				fromParam := flowsFromParam(a, map[ssa.Value]bool{}, 0)
+				// built from live hosts: some Config() result flows into it
+				fromLive := false
+				forEachInstr(f, true, func(_ *ssa.Function, x ssa.Instruction) {
+					if call, ok := x.(ssa.CallInstruction); ok && call.Common().IsInvoke() && call.Common().Method.Name() == "Config" {
+						fromLive = true
+					}
+				})
+				c.Check(rule, key, in.Pos(), !fromParam && fromLive, "the recorded host list is built from the live host set (host.Config())", "the host list recorded in the stored configuration is the list the update was called with, not the hosts read back from the live host set: the runtime de-duplicates and replaces hosts by address, so the dump (and a restart from it) differs from the running proxy")
+			}
+		})
+	}
+	if n < 1 {
+		c.Unresolved(rule, "host lists passed to pkg/configmanager from pkg/upstream/cluster")
+	}
+}
